@@ -81,6 +81,28 @@ CHECKS = {
         note=_STATIC_NOTE + " Atomicity of a single dict/list/attribute store (CPython) is the trusted base. Not decided: results under real interleavings; XML libraries' thread-safety.",
         technique="static analysis: shared-state write-pattern classification (publish vs in-place rebuild), alias analysis of shared containers, read-pattern checks",
     ),
+    "C08": dict(
+        text="Static discharge of backend agreement: MRO resolution of every writer-protocol method for the three writer backends (same function or "
+        "whitespace-only decorator), normalised-AST sibling comparison of the two parser handlers' event pumps, effective-keyword check that every lxml "
+        "parser drops comments and PIs, source-kind dispatch, single event generator, node protocol, copying of recorded attribute maps.",
+        design_ref="DESIGN.md section 4 C08",
+        note=_STATIC_NOTE + " Not decided: infoset identity / object equality for every document (XMLGenerator, lxml, expat behaviour).",
+        technique="static analysis: class-hierarchy (MRO) resolution, sibling-implementation cross-check over normalised ASTs, effective keyword extraction, CFG must-pass",
+    ),
+    "C09": dict(
+        text="Static discharge of infoset-only parsing conditions: raw-text taint to lexical sinks (whitespace), comment/PI options of both handlers, "
+        "who-may-split-prefixes plus default-namespace lookup in the resolver, flow of the in-scope namespace map to every resolver and node, tail normalisation dominance.",
+        design_ref="DESIGN.md section 4 C09",
+        note=_STATIC_NOTE + " Not decided: invariance under every composition of rewrites (encodings, CDATA, entity handling are the XML libraries' behaviour).",
+        technique="static analysis: interprocedural def-use taint, who-may-call rule, argument-flow checks at resolved call sites, CFG dominance",
+    ),
+    "C11": dict(
+        text="Static discharge of generic-model completeness: field coverage of AnyElement / DerivedElement on parser and serializer, event order of generic elements, "
+        "sibling agreement of node classes on attributes, whitespace-only text and tails, totality over wildcard namespace tokens.",
+        design_ref="DESIGN.md section 4 C11",
+        note=_STATIC_NOTE + " Not decided: preservation for every document (value-level).",
+        technique="static analysis: vocabulary agreement (class fields vs call keywords vs attribute reads), CFG ordering of yields, sibling contradiction rule",
+    ),
 }
 
 NOT_APPLICABLE = [
